@@ -62,7 +62,8 @@ type verifC22Suite struct{}
 var _ = Suite(&verifC22Suite{})
 
 // ---------------------------------------------------------------------------------------------
-// the small world: 3 snaps, 2 interfaces, 3 possible connections
+// the small world: 3 snaps, 2 interfaces, 4 possible connections (one slot with two plugs: A and C; one plug
+// with two slots: A and D)
 
 const c22BaseDecl = `
 type: base-declaration
@@ -88,6 +89,9 @@ slots:
   attr2: value2
  slot2:
   interface: test2
+ slot3:
+  interface: test
+  attr2: value3
 hooks:
  prepare-slot-slot:
  unprepare-slot-slot:
@@ -129,14 +133,16 @@ type c22ConnDef struct {
 }
 
 // A: auto-connectable, hooks on both sides; B: manual only, no hooks; C: auto-connectable, slot-side hooks
-// only, shares producer:slot with A.
+// only, shares producer:slot with A (one slot, two plugs); D: manual only (the interface's AutoConnect refuses
+// slot3), plug-side hooks only, shares consumer:plug with A (one plug, two slots).
 var c22ConnDefs = map[string]c22ConnDef{
 	"A": {"consumer", "plug", "producer", "slot"},
 	"B": {"consumer", "otherplug", "producer", "slot2"},
 	"C": {"consumer2", "plug", "producer", "slot"},
+	"D": {"consumer", "plug", "producer", "slot3"},
 }
 
-var c22ConnNames = []string{"A", "B", "C"}
+var c22ConnNames = []string{"A", "B", "C", "D"}
 
 func (d c22ConnDef) ref() *interfaces.ConnRef {
 	return &interfaces.ConnRef{PlugRef: interfaces.PlugRef{Snap: d.PlugSnap, Name: d.Plug}, SlotRef: interfaces.SlotRef{Snap: d.SlotSnap, Name: d.Slot}}
@@ -569,7 +575,11 @@ func (f *c22Fix) ifaces() []interfaces.Interface {
 	// a dynamic attribute is added by the interface itself, so that connections carry dynamic attributes
 	// that undo and reload have to preserve
 	return []interfaces.Interface{
-		&ifacetest.TestInterface{InterfaceName: "test", BeforeConnectPlugCallback: func(plug *interfaces.ConnectedPlug) error {
+		&ifacetest.TestInterface{InterfaceName: "test", AutoConnectCallback: func(plug *snap.PlugInfo, slot *snap.SlotInfo) bool {
+			// slot3 is for manual connections only (otherwise consumer:plug would have two candidates and
+			// auto-connect, one slot per plug, would pick none)
+			return slot.Name != "slot3"
+		}, BeforeConnectPlugCallback: func(plug *interfaces.ConnectedPlug) error {
 			return plug.SetAttr("dyn-plug", "set-by-"+plug.Snap().InstanceName())
 		}, BeforeConnectSlotCallback: func(slot *interfaces.ConnectedSlot) error {
 			return slot.SetAttr("dyn-slot", "set-by-producer")
@@ -1370,7 +1380,7 @@ type c22State struct {
 	Points []int   `json:"points"`
 }
 
-const c22Rule = "states: breadth-first from the root configurations over every enabled operation of the alphabet (connect/disconnect/forget of 3 connections, install/remove of 3 snaps, restart) to the depth bound, every path replayed on a fresh fixture, deduplicated on the canonical observation (installed snaps, persisted conns, repository connections with attributes, profile contents); cases: every state x every enabled operation without failure and x every failure point 0..N (a failing task spliced after the k-th completed task of the change, counting tasks injected by auto-connect/auto-disconnect and hooks; removals up to discard-snap); non-trivial = failure cases in which at least one completed task had to be undone"
+const c22Rule = "states: breadth-first from the root configurations over every enabled operation of the alphabet (connect/disconnect/forget of 4 connections - one slot shared by two plugs, one plug shared by two slots -, install/remove of 3 snaps, restart) to the depth bound, every path replayed on a fresh fixture, deduplicated on the canonical observation (installed snaps, persisted conns, repository connections with attributes, profile contents); cases: every state x every enabled operation without failure and x every failure point 0..N (a failing task spliced after the k-th completed task of the change, counting tasks injected by auto-connect/auto-disconnect and hooks; removals up to discard-snap); non-trivial = failure cases in which at least one completed task had to be undone"
 
 func (s *verifC22Suite) TestVerifC22(c *C) {
 	r := eng.Start("C22", "model_checking", 100*time.Second, 14*time.Minute)
@@ -1542,7 +1552,7 @@ func (s *verifC22Suite) TestVerifC22(c *C) {
 			eng.HarnessError("cannot write %s: %v", statesFile, err)
 		}
 		r.Add("states", int64(len(states)))
-		r.Info("bounds", map[string]interface{}{"depth": depth, "roots": c22RootNames, "snaps": 3, "connections": 3, "states_by_depth": byDepth,
+		r.Info("bounds", map[string]interface{}{"depth": depth, "roots": c22RootNames, "snaps": 3, "connections": len(c22ConnNames), "states_by_depth": byDepth,
 			"closure_reached": closure, "generation_seconds": int(time.Since(t0).Seconds())})
 		fmt.Printf("C22: %d states %v closure=%v in %v\n", len(states), byDepth, closure, time.Since(t0))
 		if os.Getenv("VERIF_C22_LIST") != "" {
